@@ -130,7 +130,101 @@ pub struct WorkerOutput {
     pub alloc_points: u64,
     #[serde(default)]
     pub virtual_sleeps: u64,
+    /// what the calls wrote to the process's standard output (a build script's channel to cargo)
+    #[serde(default)]
+    pub stdout_written: Option<String>,
+    /// process attributes that differ after the calls: umask, signal dispositions, resource limits
+    #[serde(default)]
+    pub process_attributes_changed: Vec<String>,
+    /// informational: open file descriptors and threads after the calls minus before
+    #[serde(default)]
+    pub fds_delta: i64,
+    #[serde(default)]
+    pub threads_left_running: u64,
     pub log: Vec<String>,
+}
+
+/// Process attributes a library call has no business changing.
+fn process_attributes() -> Vec<(String, String)> {
+    let mut v = Vec::new();
+    unsafe {
+        let mask = libc::umask(0o022);
+        libc::umask(mask);
+        v.push(("umask".to_string(), format!("{mask:o}")));
+        for (name, sig) in [
+            ("SIGHUP", libc::SIGHUP),
+            ("SIGINT", libc::SIGINT),
+            ("SIGQUIT", libc::SIGQUIT),
+            ("SIGPIPE", libc::SIGPIPE),
+            ("SIGALRM", libc::SIGALRM),
+            ("SIGTERM", libc::SIGTERM),
+            ("SIGCHLD", libc::SIGCHLD),
+            ("SIGUSR1", libc::SIGUSR1),
+            ("SIGUSR2", libc::SIGUSR2),
+        ] {
+            let mut old: libc::sigaction = std::mem::zeroed();
+            if libc::sigaction(sig, std::ptr::null(), &mut old) == 0 {
+                v.push((format!("disposition of {name}"), format!("{:x}/{:x}", old.sa_sigaction, old.sa_flags)));
+            }
+        }
+        for (name, res) in [
+            ("RLIMIT_NOFILE", libc::RLIMIT_NOFILE),
+            ("RLIMIT_STACK", libc::RLIMIT_STACK),
+            ("RLIMIT_CORE", libc::RLIMIT_CORE),
+            ("RLIMIT_AS", libc::RLIMIT_AS),
+            ("RLIMIT_NPROC", libc::RLIMIT_NPROC),
+        ] {
+            let mut lim: libc::rlimit = std::mem::zeroed();
+            if libc::getrlimit(res, &mut lim) == 0 {
+                v.push((name.to_string(), format!("{}/{}", lim.rlim_cur, lim.rlim_max)));
+            }
+        }
+        v.push(("nice value".to_string(), libc::getpriority(libc::PRIO_PROCESS, 0).to_string()));
+    }
+    v
+}
+
+fn count_dir(path: &str) -> i64 {
+    std::fs::read_dir(path).map(|d| d.count() as i64).unwrap_or(0)
+}
+
+/// Points file descriptor 1 at an anonymous file for the duration of the calls.
+struct StdoutCapture {
+    saved: i32,
+    capture: i32,
+}
+
+impl StdoutCapture {
+    fn start() -> Option<StdoutCapture> {
+        unsafe {
+            let _ = std::io::stdout().flush();
+            let capture = libc::memfd_create(c"verif-stdout".as_ptr(), 0);
+            if capture < 0 {
+                return None;
+            }
+            let saved = libc::dup(1);
+            if saved < 0 || libc::dup2(capture, 1) < 0 {
+                libc::close(capture);
+                return None;
+            }
+            Some(StdoutCapture { saved, capture })
+        }
+    }
+
+    fn finish(self) -> Option<String> {
+        unsafe {
+            let _ = std::io::stdout().flush();
+            libc::dup2(self.saved, 1);
+            libc::close(self.saved);
+            let len = libc::lseek(self.capture, 0, libc::SEEK_END);
+            let mut buf = vec![0u8; len.clamp(0, 400) as usize];
+            if len > 0 {
+                libc::pread(self.capture, buf.as_mut_ptr() as *mut libc::c_void, buf.len(), 0);
+            }
+            libc::close(self.capture);
+            (len > 0).then(|| format!("{len} bytes: {:?}", String::from_utf8_lossy(&buf)))
+        }
+    }
 }
 
 // ---------------------------------------------------------------------------------------------
@@ -259,6 +353,10 @@ fn run_process(input: &WorkerInput) -> WorkerOutput {
     let files_before = cwd_before.as_deref().map(list_dir).unwrap_or_default();
     let tmp_before = input.tmp_dir.as_deref().map(|d| list_tree(std::path::Path::new(d))).unwrap_or_default();
     let hook_ok_before = crate::panic_hook_is_ours();
+    let attributes_before = process_attributes();
+    let stdout_capture = StdoutCapture::start();
+    let fds_before = count_dir("/proc/self/fd");
+    let threads_before = count_dir("/proc/self/task");
 
     let n = p.threads.len();
     let sched = Arc::new(Sched::new(n, &p.sched, input.record_log));
@@ -401,6 +499,24 @@ fn run_process(input: &WorkerInput) -> WorkerOutput {
     }
 
     let report = sched.report();
+    let stdout_written = stdout_capture.and_then(|c| c.finish());
+    let fds_delta = count_dir("/proc/self/fd") - fds_before;
+    // a thread that has just been joined or has just returned may still be listed for a moment
+    let mut threads_left_running = 0;
+    for _ in 0..20 {
+        threads_left_running = (count_dir("/proc/self/task") - threads_before).max(0) as u64;
+        if threads_left_running == 0 {
+            break;
+        }
+        let _real = seams::RealClock::new();
+        std::thread::sleep(std::time::Duration::from_millis(5));
+    }
+    let process_attributes_changed: Vec<String> = process_attributes()
+        .into_iter()
+        .zip(attributes_before)
+        .filter(|(after, before)| after != before)
+        .map(|(after, before)| format!("{}: {} -> {}", after.0, before.1, after.1))
+        .collect();
     let env_after: BTreeMap<String, String> = std::env::vars_os()
         .map(|(k, v)| (k.to_string_lossy().into_owned(), v.to_string_lossy().into_owned()))
         .collect();
@@ -464,6 +580,10 @@ fn run_process(input: &WorkerInput) -> WorkerOutput {
         helper_threads: helper_threads.load(Ordering::Relaxed),
         alloc_points: seams::ALLOC_POINTS.load(Ordering::Relaxed),
         virtual_sleeps: seams::VIRTUAL_SLEEPS.load(Ordering::Relaxed),
+        stdout_written,
+        process_attributes_changed,
+        fds_delta,
+        threads_left_running,
         log: report.log,
     }
 }
@@ -920,6 +1040,8 @@ pub struct RunStats {
     /// threads created by the code under test inside its calls (helper threads of a change);
     /// they are not under the scheduler's control
     pub helper_threads: u64,
+    pub processes_with_more_open_fds_after_the_calls: u64,
+    pub processes_with_threads_left_running: u64,
     pub alloc_points: u64,
     pub virtual_sleeps: u64,
     pub same_job_on_two_threads: u64,
@@ -998,6 +1120,8 @@ fn execute(scratch: &Scratch, golden: &Golden, plan: &RunPlan, record: bool) -> 
         stats.formatter_spawns += out.formatter_spawns;
         stats.unreaped_children += out.unreaped_children;
         stats.helper_threads += out.helper_threads;
+        stats.processes_with_more_open_fds_after_the_calls += (out.fds_delta > 0) as u64;
+        stats.processes_with_threads_left_running += (out.threads_left_running > 0) as u64;
         stats.alloc_points += out.alloc_points;
         stats.virtual_sleeps += out.virtual_sleeps;
         if process.env.len() != canonical_env().len() || process.env != canonical_env() {
@@ -1097,6 +1221,26 @@ fn execute(scratch: &Scratch, golden: &Golden, plan: &RunPlan, record: bool) -> 
                 },
                 process: pi,
                 detail: format!("files left behind (temp dir, home, OUT_DIR, manifest dir, working directories of the run): {:?}", out.new_files_in_tmp.iter().take(6).collect::<Vec<_>>()),
+                job: None,
+                expected: None,
+                actual: None,
+            });
+        }
+        if let Some(written) = &out.stdout_written {
+            divergences.push(Divergence {
+                class: "state_modified:stdout_written".into(),
+                process: pi,
+                detail: format!("the calls wrote to standard output (in a build script that is cargo's instruction channel): {written}"),
+                job: None,
+                expected: None,
+                actual: None,
+            });
+        }
+        if !out.process_attributes_changed.is_empty() {
+            divergences.push(Divergence {
+                class: "state_modified:process_attributes".into(),
+                process: pi,
+                detail: format!("process attributes changed by the calls: {:?}", out.process_attributes_changed),
                 job: None,
                 expected: None,
                 actual: None,
@@ -1323,6 +1467,8 @@ fn add_stats(a: &mut RunStats, b: &RunStats) {
     a.formatter_spawns += b.formatter_spawns;
     a.unreaped_children += b.unreaped_children;
     a.helper_threads += b.helper_threads;
+    a.processes_with_more_open_fds_after_the_calls += b.processes_with_more_open_fds_after_the_calls;
+    a.processes_with_threads_left_running += b.processes_with_threads_left_running;
     a.alloc_points += b.alloc_points;
     a.virtual_sleeps += b.virtual_sleeps;
     a.same_job_on_two_threads += b.same_job_on_two_threads;
@@ -1613,6 +1759,8 @@ pub fn main(tier: Tier) -> i32 {
         "realtime_clock_reads_in_workers": s.realtime_reads,
         "formatter_children_not_reaped": s.unreaped_children,
         "helper_threads_created_by_the_code_under_test_uncontrolled": s.helper_threads,
+        "processes_with_more_open_fds_after_the_calls_informational": s.processes_with_more_open_fds_after_the_calls,
+        "processes_with_threads_left_running_informational": s.processes_with_threads_left_running,
         "stall_handoffs_baton_holder_blocked_outside_seams": s.stall_handoffs,
         "determinism_pairs_checked": det_n,
         "known_findings_hit": known_hits,
